@@ -284,6 +284,9 @@ func cmdVC(args []string) {
 		fmt.Printf("%-5s %-8s %-7s %5dms  %s  (%s:%d)\n", status, r.Res.Verdict, r.Res.Solver, r.Res.Ms, r.Obl.Name, shortFile(r.Obl.Pos.Filename), r.Obl.Pos.Line)
 		if !r.OK && (*dump || *verbose) {
 			fmt.Println(truncate(r.Res.Output, 1500))
+			if r.Obl.Detail != "" {
+				fmt.Println("   " + r.Obl.Detail)
+			}
 		}
 	}
 	for _, n := range vc.Notes {
